@@ -107,6 +107,31 @@ def cases(tier, seed):
         c["optics"] = {"medium_index": own(0.3), "illum_wavelen": own(0.3), "noise_sd": own(0.3)}
         c["pool"] = c["pool"] + extra
         out.append(c)
+    # name-collision structures: several priors each shared across members at the same attribute, explicit names
+    # equal to the short names the mapper would invent
+    pats = [[0, 1, 0, 1], [0, 0, 1, 1], [0, 1, 1, 0], [0, 1, 0], [0, 0, 1], [0, 1, 2, 0, 1, 2][:4]]
+    for i in range(len(pats) * (2 if tier == "quick" else 20)):
+        pat = pats[i % len(pats)]
+        attr = ["r", "n", "center.0"][(i // len(pats)) % 3]
+        named = [None, attr.split(".")[0], "r", "n_0"][(i // 3) % 4]
+        pool = _gen_pool(rng, max(pat) + 2)
+        for q in pool:
+            q["name"] = None
+        pool[-1]["name"] = named
+        members = []
+        for j, k in enumerate(pat):
+            m_ = {"t": "sphere", "n": {"k": "fix", "v": 1.5}, "r": {"k": "fix", "v": 0.5}, "center": [{"k": "fix", "v": float(j)}, {"k": "fix", "v": 0.0}, {"k": "fix", "v": 10.0}]}
+            site = {"k": "p", "i": k}
+            if attr == "center.0":
+                m_["center"][0] = site
+            else:
+                m_[attr] = site
+            members.append(m_)
+        # one more prior, explicitly named, somewhere else
+        members[0]["center"][2] = {"k": "p", "i": len(pool) - 1}
+        out.append({"id": "collide-%d" % i, "kind": "struct", "shape": "spheres%d" % len(pat), "pool": pool, "struct": {"t": "spheres", "members": members},
+                    "model": "alpha", "alpha": {"k": "fix", "v": 0.8}, "optics": {"medium_index": {"k": "fix", "v": 1.33}, "illum_wavelen": {"k": "fix", "v": 0.66}, "noise_sd": {"k": "fix", "v": 0.1}},
+                    "seed": [seed, "collide", i]})
     # ties: bounded-exhaustive subsets of equal candidates
     k = 0
     for ncand in range(2, 6):
@@ -352,7 +377,7 @@ def _run_struct(case):
     names = list(pars.keys())
     plist = list(pars.values())
     flags["one_parameter_per_distinct_prior"] = bool(len(model._parameters) == len(distinct) == len(names))
-    flags["names_unique"] = bool(len(set(names)) == len(model._parameter_names))
+    flags["names_unique"] = bool(len(set(model._parameter_names)) == len(model._parameter_names) == len(model.parameters) == len(model.initial_guess))
     # every model parameter is (a copy of) exactly one of the pool priors; pool priors are pairwise unequal
     idx = {}
     ok = True
